@@ -67,6 +67,10 @@ func c30iDigest(alg string, b []byte) string {
 	}
 }
 
+const c30iKnownNone = "C30-alg-none-skips-declared-sha256"
+
+var c30iExcluded int // cases steered around the listed finding (flushed into the stats by the legs)
+
 // c30iAllowed: may payload p be handed out for env under this mapping?
 func c30iAllowed(env lfs.Envelope, p []byte, validate bool, maxSize int64) (bool, string) {
 	if maxSize > 0 && int64(len(p)) > maxSize {
@@ -81,6 +85,14 @@ func c30iAllowed(env lfs.Envelope, p []byte, validate bool, maxSize int64) (bool
 		alg = "sha256"
 	case "sha256", "md5", "crc32":
 	case "none":
+		// the mandatory sha256 field is still a checksum the envelope declares
+		if got := c30iDigest("sha256", p); env.SHA256 != "" && !strings.EqualFold(got, env.SHA256) {
+			if vfkit.Known(c30iKnownNone) {
+				c30iExcluded++
+				return true, ""
+			}
+			return false, fmt.Sprintf("checksum_alg is none but the envelope declares sha256 %s and the payload hashes to %s (validate_checksum is on for this mapping)", env.SHA256, got)
+		}
 		return true, ""
 	default:
 		return false, "unsupported checksum algorithm " + env.ChecksumAlg
@@ -303,6 +315,9 @@ func TestVF_C30_Iceberg(t *testing.T) {
 			}
 		}
 		viol, interesting := c30iRun(st, mappings, batches)
+		for ; c30iExcluded > 0; c30iExcluded-- {
+			st.ExcludedCase(c30iKnownNone)
+		}
 		if viol != "" {
 			t.Fatalf("%s", viol)
 		}
@@ -331,7 +346,7 @@ func TestVF_C30_IcebergEnum(t *testing.T) {
 	for _, first := range grid {
 		for _, second := range grid {
 			for _, stg := range []string{"exact", "bitflip", "truncated", "extended", "other", "error"} {
-				for _, alg := range []string{"", "md5"} {
+				for _, alg := range []string{"", "md5", "none"} {
 					st.Eval()
 					a, b := first, second
 					a.Topic, b.Topic = "first", "second"
@@ -340,6 +355,9 @@ func TestVF_C30_IcebergEnum(t *testing.T) {
 						{Mapping: 1, Records: []c30iRecord{{Kind: "envelope", Alg: alg, Storage: stg, blob: blob, BlobLen: len(blob)}}},
 					}
 					viol, interesting := c30iRun(st, []c30iMapping{a, b}, batches)
+					for ; c30iExcluded > 0; c30iExcluded-- {
+						st.ExcludedCase(c30iKnownNone)
+					}
 					if viol != "" {
 						t.Fatalf("%s", viol)
 					}
